@@ -1,4 +1,7 @@
 import CLModel.Proofs.Primary
+import CLModel.Proofs.NeComplete
+import CLModel.Proofs.FourSq
+import Driver.ProveOps
 import CLModel.Props.C03
 import Mathlib.Tactic.Linarith
 import Mathlib.Tactic.NormNum
@@ -119,6 +122,80 @@ theorem revealed_values_equal (pk : PubKey G) (sig : Signature G) (un rev : List
     rw [lookup_map_self val rev k hk, hv k (hrev k hk)]
   | err => rw [hm] at h2; simp at h2
   | panic => rw [hm] at h2; simp at h2
+
+/-- **the predicate sub-protocol is complete**: for a true predicate over i32 values the honest
+prover's `_init_ne_proof` / `_finalize_ne_proof` succeed and `_verify_ne_predicate` recomputes
+exactly the prover's six τ values (four `T_i` blinders, `T_Δ`, `Q`) — every key, every value and
+threshold in the i32 range, all four predicate types (the delta arms regenerated from the Rust
+source), both overflow modes, every challenge, all blinders.  `four_squares` enters as any
+function returning four roots whose squares sum to delta. -/
+theorem ne_complete (m : OvfMode) (fourSq : ℤ → Outcome (List ℤ)) (pk : PubKey G) (p : Pred)
+    (mTilde : List (String × ℤ)) (vals : Values) (tp : NeTape) (eq : EqProof G) (c av mt : ℤ)
+    (uf rf utf rtf : String → ℤ)
+    (hval : lookup p.attr vals = some av) (hav : C03.I32 av) (hpv : C03.I32 p.value)
+    (hholds : p.holds av = true)
+    (hfs : ∀ d, getDelta m p av = .ok d →
+      fourSq d = .ok (iterKeys.map uf) ∧ (iterKeys.map fun k => uf k ^ 2).sum = d)
+    (hmt : lookup p.attr mTilde = some mt)
+    (heqm : lookup p.attr eq.m = some (c * av + mt))
+    (hr : Maps tp.r (iterKeys ++ ["DELTA"]) rf) (hut : Maps tp.uTilde iterKeys utf)
+    (hrt : Maps tp.rTilde (iterKeys ++ ["DELTA"]) rtf)
+    (hnn : 0 ≤ rtf "DELTA" ∧ 0 ≤ c * rf "DELTA" + rtf "DELTA") :
+    ∃ init prf, initNeProof (addOps enc) m fourSq pk mTilde vals p tp = .ok init ∧
+      finalizeNeProof c init eq = .ok prf ∧
+      verifyNePredicate (addOps enc) m pk prf c = .ok init.tauList ∧
+      prf.mj = c * av + mt ∧ prf.pred = p :=
+  Pri.ne_complete enc m fourSq pk p mTilde vals tp eq c av mt uf rf utf rtf hval hav hpv hholds hfs
+    hmt heqm hr hut hrt hnn
+
+theorem iterKeys_eq : iterKeys = ["0", "1", "2", "3"] := by decide
+
+/-- … and the model of the library's own `four_squares` (`FourSq.fourSquares`, proved total and
+exact for every delta ≥ 0 — Lagrange — in `Proofs/FourSq.lean`, C19) is such a function: predicate
+proofs of the model prover the driver runs are accepted for EVERY true predicate. -/
+theorem ne_complete_four_squares (m : OvfMode) (pk : PubKey G) (p : Pred)
+    (mTilde : List (String × ℤ)) (vals : Values) (tp : NeTape) (eq : EqProof G) (c av mt : ℤ)
+    (rf utf rtf : String → ℤ)
+    (hval : lookup p.attr vals = some av) (hav : C03.I32 av) (hpv : C03.I32 p.value)
+    (hholds : p.holds av = true)
+    (hmt : lookup p.attr mTilde = some mt)
+    (heqm : lookup p.attr eq.m = some (c * av + mt))
+    (hr : Maps tp.r (iterKeys ++ ["DELTA"]) rf) (hut : Maps tp.uTilde iterKeys utf)
+    (hrt : Maps tp.rTilde (iterKeys ++ ["DELTA"]) rtf)
+    (hnn : 0 ≤ rtf "DELTA" ∧ 0 ≤ c * rf "DELTA" + rtf "DELTA") :
+    ∃ init prf, initNeProof (addOps enc) m Drv.fourSq pk mTilde vals p tp = .ok init ∧
+      finalizeNeProof c init eq = .ok prf ∧
+      verifyNePredicate (addOps enc) m pk prf c = .ok init.tauList := by
+  obtain ⟨δ, hδ, hnonneg, _⟩ := C03.delta_nonneg_iff m p av hav hpv
+  have h0 : 0 ≤ δ := hnonneg.mpr hholds
+  have hfour := FourSq.fourSquaresU_eq (um := .ideal) δ h0 trivial
+  have hsum := FourSq.pI_sum δ.toNat
+  generalize FourSq.pI δ.toNat (Nat.sqrt δ.toNat) (Nat.sqrt δ.toNat) 0 0 0 = st at hfour hsum
+  obtain ⟨brk, a, b, c', e⟩ := st
+  simp only at hfour hsum
+  let uf : String → ℤ := fun k =>
+    if k = "0" then (a : ℤ) else if k = "1" then (b : ℤ) else if k = "2" then (c' : ℤ) else (e : ℤ)
+  have hfs : ∀ d, getDelta m p av = .ok d →
+      Drv.fourSq d = .ok (iterKeys.map uf) ∧ (iterKeys.map fun k => uf k ^ 2).sum = d := by
+    intro d hd
+    rw [hδ] at hd; cases hd
+    constructor
+    · show (match FourSq.fourSquares δ with
+          | .ok (a, b, c, e) => Outcome.ok [(a : ℤ), (b : ℤ), (c : ℤ), (e : ℤ)]
+          | .err => .err
+          | .panic => .panic) = _
+      have : FourSq.fourSquares δ = .ok (a, b, c', e) := hfour
+      rw [this, iterKeys_eq]
+      simp [uf]
+    · rw [iterKeys_eq]
+      have hz : ((a * a + b * b + c' * c' + e * e : ℕ) : ℤ) = δ := by
+        rw [hsum]; exact Int.toNat_of_nonneg h0
+      simp [uf]
+      push_cast at hz
+      nlinarith [hz]
+  obtain ⟨init, prf, h1, h2, h3, _, _⟩ := ne_complete enc m Drv.fourSq pk p mTilde vals tp eq c av
+    mt uf rf utf rtf hval hav hpv hholds hfs hmt heqm hr hut hrt hnn
+  exact ⟨init, prf, h1, h2, h3⟩
 
 /-! non-vacuity: a concrete key, credential and tape over `ℤ` (toy group) -/
 example : SigValid (G := ℤ) ⟨1, 100, 2, [("a", 3), ("b", 5)]⟩ ⟨4, 7, 5, 9⟩
